@@ -309,6 +309,44 @@ class CSet:
             r.add(c)
         return r
 
+    def restrict(self, keep):
+        """cheap, lossy stand-in for project(): atoms bound by an equality are substituted away, then only the constraints written
+        over `keep` atoms are kept (sound: a weaker set)"""
+        if self.bottom:
+            return self.copy()
+        keep = set(keep)
+        cons = sorted(self.cons, key=lambda c: c.key())
+        try:
+            for a in sorted(self.atoms() - keep):
+                if any(c.kind == "eq" and a in c.e.t for c in cons):
+                    cons = self._eliminate(cons, a)
+        except Infeasible:
+            r = CSet()
+            r.bottom = True
+            return r
+        r = CSet()
+        for c in cons:
+            if set(c.e.t) <= keep:
+                r.add(c)
+        return r
+
+    def minimized(self, limit=80):
+        """the same set of solutions with the constraints the others already imply left out (kept small for summaries,
+        which are instantiated at every call site)"""
+        if self.bottom or len(self.cons) > limit:
+            return self
+        cons = sorted(self.cons, key=lambda c: (-len(c.e.t), c.key()))
+        kept = list(cons)
+        for c in cons:
+            rest = CSet([x for x in kept if x is not c])
+            try:
+                if rest.entails(c):
+                    kept = [x for x in kept if x is not c]
+            except OverflowError:
+                pass
+        r = CSet(kept)
+        return r
+
     def infeasible(self):
         if self.bottom:
             return True
